@@ -187,3 +187,82 @@ Proof.
     destruct (one_line_cell _ _ _ _ _ H1) as [L C]. rewrite <- (C i Hi).
     rewrite (nth_indep _ 0 (cell_byte Star)) by (rewrite map_length, L; exact Hi). apply map_nth.
 Qed.
+
+(* ================= the whole command as a position-wise specification ================= *)
+(* SPEC row of a query block before the flank/pad rewrite, written position by position from the statement *)
+Definition spec_raw (reflen : nat) (block : list srec) : list N :=
+  map (fun i => nuc_from_site (map (fun r => cell_byte (aligned (s_cigar r) 0 (s_pos r) (s_seq r) i)) block)) (seq 0 reflen).
+Definition block_ok (reflen : nat) (block : list srec) : bool :=
+  match block with
+  | [] => false
+  | _ => match all_some (map (fun r => one_line (s_pos r) (s_cigar r) (s_seq r) reflen) block) with Some _ => true | None => false end
+  end.
+Definition toma_spec_cmd (reflen : nat) (recs : list srec) (wrap : nat) (ts te : Z) (pad : bool) : res (list N) :=
+  match check_args reflen ts te with
+  | None => Err Other
+  | Some (s, e, trim) =>
+      if forallb (block_ok reflen) (group_records recs) then
+        Ok (concat (map (fun b =>
+              let sq := fasta_seq pad trim s e (spec_raw reflen b) in
+              let name := match b with r0 :: _ => s_name r0 | [] => [] end in
+              if Nat.ltb 0 wrap then fasta_record_wrap wrap name sq else fasta_record name sq) (group_records recs)))
+      else Panic
+  end.
+
+Lemma seq_from_block_spec reflen block raw : block <> [] -> seq_from_block reflen block = Some raw -> raw = spec_raw reflen block.
+Proof.
+  intros Hne H. destruct (toma_block_row_spec reflen block raw Hne H) as [Hl Hn].
+  apply (nth_ext _ _ 0 0); [unfold spec_raw; rewrite map_length, seq_length; exact Hl|].
+  intros i Hi. rewrite Hl in Hi. rewrite (Hn i Hi). unfold spec_raw.
+  rewrite (nth_indep _ 0 (nuc_from_site (map (fun r => cell_byte (aligned (s_cigar r) 0 (s_pos r) (s_seq r) 0)) block)))
+    by (rewrite map_length, seq_length; exact Hi).
+  rewrite (map_nth (fun i => nuc_from_site (map (fun r => cell_byte (aligned (s_cigar r) 0 (s_pos r) (s_seq r) i)) block)) (seq 0 reflen) 0%nat i).
+  rewrite seq_nth by exact Hi. reflexivity.
+Qed.
+
+(* the model command equals the position-wise specification command: every SAM record list, every option set *)
+Theorem toma_cmd_eq_spec reflen recs wrap ts te pad :
+  toma_cmd reflen recs wrap ts te pad = toma_spec_cmd reflen recs wrap ts te pad.
+Proof.
+  unfold toma_cmd, toma_spec_cmd. destruct (check_args reflen ts te) as [[[s e] trim]|]; [|reflexivity].
+  induction (group_records recs) as [|b t IH]; [reflexivity|]. cbn [forallb map concat].
+  destruct b as [|r0 b']; [cbn [block_ok andb]; reflexivity|].
+  destruct (seq_from_block reflen (r0 :: b')) as [raw|] eqn:E.
+  - assert (Hok : block_ok reflen (r0 :: b') = true).
+    { unfold block_ok. unfold seq_from_block in E. destruct (all_some _); [reflexivity|discriminate]. }
+    rewrite Hok. cbn [andb]. rewrite IH. rewrite (seq_from_block_spec reflen (r0 :: b') raw ltac:(discriminate) E).
+    destruct (forallb (block_ok reflen) t); reflexivity.
+  - assert (Hok : block_ok reflen (r0 :: b') = false).
+    { unfold block_ok. unfold seq_from_block in E. destruct (all_some _); [discriminate|reflexivity]. }
+    rewrite Hok. reflexivity.
+Qed.
+
+(* grouping: the blocks are the non-skipped records in input order, cut where the query name changes *)
+Lemma group_from_concat : forall l cur name, concat (group_from cur name l) = rev cur ++ l.
+Proof.
+  induction l as [|r t IH]; intros cur name; cbn [group_from concat]; [rewrite app_nil_r; reflexivity|].
+  destruct (list_eqb (s_name r) name).
+  - rewrite IH. cbn [rev]. rewrite <- app_assoc. reflexivity.
+  - cbn [concat]. rewrite IH. reflexivity.
+Qed.
+Lemma group_from_blocks : forall l cur name, cur <> [] -> (forall r, In r cur -> s_name r = name) ->
+  Forall (fun b => b <> [] /\ exists nm, forall r, In r b -> s_name r = nm) (group_from cur name l).
+Proof.
+  induction l as [|r t IH]; intros cur name Hne Hn; cbn [group_from].
+  - constructor; [|constructor]. split; [intros E; apply Hne; destruct cur; [reflexivity|cbn in E; destruct (rev cur); discriminate]|].
+    exists name. intros r Hr. apply Hn. apply in_rev. exact Hr.
+  - destruct (list_eqb (s_name r) name) eqn:E.
+    + apply list_eqb_eq in E. apply IH; [discriminate|]. intros r' [<-|Hr']; [exact E|apply Hn, Hr'].
+    + constructor.
+      * split; [intros E'; apply Hne; destruct cur; [reflexivity|cbn in E'; destruct (rev cur); discriminate]|].
+        exists name. intros r' Hr'. apply Hn. apply in_rev. exact Hr'.
+      * apply IH; [discriminate|]. intros r' [<-|[]]. reflexivity.
+Qed.
+Theorem group_records_spec l :
+  concat (group_records l) = filter (fun r => negb (skipped r)) l /\
+  Forall (fun b => b <> [] /\ exists nm, forall r, In r b -> s_name r = nm) (group_records l).
+Proof.
+  unfold group_records. destruct (filter (fun r => negb (skipped r)) l) as [|r t]; [split; [reflexivity|constructor]|]. split.
+  - rewrite group_from_concat. reflexivity.
+  - apply group_from_blocks; [discriminate|]. intros r' [<-|[]]. reflexivity.
+Qed.
